@@ -365,6 +365,18 @@ func buildMrzi(docNum, docNumCD, dob, dobCD, expiry, expiryCD string) (string, e
 	if err := verifyCheckdigit(expiry, expiryCD); err != nil {
 		return "", err
 	}
+	// an empty field may carry the filler in place of its check digit (accepted above); the MRZ information
+	// always carries the digit, as the field routes (EncodeMrzi) compute it
+	for _, f := range []struct{ data, cd *string }{{&docNum, &docNumCD}, {&dob, &dobCD}, {&expiry, &expiryCD}} {
+		if *f.cd == "<" {
+			cd, err := calcCheckdigit(*f.data)
+			if err != nil {
+				return "", err
+			}
+			*f.cd = cd
+		}
+	}
+
 	return docNum + docNumCD + dob + dobCD + expiry + expiryCD, nil
 }
 
